@@ -660,13 +660,15 @@ impl Bitfield {
                     env::OWNED_BITS[h] += n;
                 }
             }
+            // raw writes: what the rows hold now is the environment's doing plus the claim accounted above
             for_rows!(r, {
-                self.data[r].store(cur[r]);
+                self.data[r].0.store(cur[r], core::sync::atomic::Ordering::SeqCst);
             });
             Ok(FrameId(p))
         } else {
+            // raw writes: what the rows hold now is the environment's doing plus the claim accounted above
             for_rows!(r, {
-                self.data[r].store(cur[r]);
+                self.data[r].0.store(cur[r], core::sync::atomic::Ordering::SeqCst);
             });
             Err(Error::Memory)
         }
